@@ -15,13 +15,19 @@ def inx(f):
 
 
 class Decoder:
-    """Maps floats to [n, d] rationals with d <= D; remembers inexact decodes."""
+    """Maps floats to [n, d] rationals with d <= D.
+
+    A float is accepted as the rational r only if it lies within a few ulps of
+    r (64 ulps, at least 2e-13): doubles carry the exact lattice values of the
+    scenarios to about one ulp, so an on-lattice truth always decodes to
+    itself, while a value that is *not* on the lattice is very unlikely to sit
+    that close to a lattice point and is reported as inexact instead of being
+    mistaken for a neighbour.  Requires 1/(2 D^2) > tolerance at the magnitudes
+    used (D = 50000 up to ~1e4, D = 1000 up to ~1e6)."""
 
     def __init__(self, D, tol=None):
         self.D = D
-        # two distinct rationals with denominators <= D differ by >= 1/D^2, so a
-        # float within 1/(4 D^2) of one of them decodes uniquely
-        self.tol = tol if tol is not None else 0.45 / (float(D) * D)
+        self.tol = tol
         self.inexact = 0
         self.nonfinite = 0
         self.worst = 0.0
@@ -37,13 +43,13 @@ class Decoder:
             return OVF
         fr = Fraction(f).limit_denominator(self.D)
         res = abs(float(fr) - f)
-        scale = max(1.0, abs(f))
         if abs(fr.numerator) > MAXI or fr.denominator > MAXI:
             return OVF
-        if res > self.tol:
+        tol = self.tol if self.tol is not None else max(2e-13, 64.0 * math.ulp(f))
+        if res > tol:
             self.inexact += 1
             return inx(f)
-        self.worst = max(self.worst, res / scale)
+        self.worst = max(self.worst, res / max(1.0, abs(f)))
         return [fr.numerator, fr.denominator]
 
 
